@@ -1134,33 +1134,35 @@ Theorem portal_accepts_while_running s k kd : running s = true -> c_phase (calls
 Proof. intros Hr Hp. cbn [step]. rewrite Hp, Hr. cbn. rewrite upd_same. auto. Qed.
 
 Theorem portal_refusal_is_final f4 fc s o k : reach f4 fc s ->
-  c_phase (calls s k) = PRefused \/ c_phase (calls s k) = PLandRefused ->
-  calls (fst (step s o)) k = calls s k /\ c_execs (calls s k) = 0 /\ ~ In k (members s).
+  c_phase (calls s k) = PRefused \/ c_phase (calls s k) = PLandRefused \/ c_phase (calls s k) = PLost ->
+  calls (fst (step s o)) k = calls s k /\ c_execs (calls s k) = 0 /\ ~ In k (members s) /\
+  c_fut (calls s k) = CPending.
 Proof.
   intros R Hp. pose proof (reach_inv _ _ _ R) as I.
   assert (He : c_execs (calls s k) = 0).
-  { rewrite (CI_execs _ (I_call s I k)). destruct Hp as [-> | ->]; reflexivity. }
+  { rewrite (CI_execs _ (I_call s I k)). destruct Hp as [-> | [-> | ->]]; reflexivity. }
   assert (Hm : ~ In k (members s)).
-  { intros Hin. apply (I_mem s I) in Hin. destruct Hp as [E|E]; rewrite E in Hin; discriminate. }
-  refine (conj _ (conj He Hm)).
+  { intros Hin. apply (I_mem s I) in Hin. destruct Hp as [E|[E|E]]; rewrite E in Hin; discriminate. }
+  destruct (CI_early _ (I_call s I k)) as (Hf & _ & _ & Hi & _); [destruct Hp as [-> | [-> | ->]]; reflexivity|].
+  refine (conj _ (conj He (conj Hm Hf))).
   destruct (option_eq_dec_target o k) as [Ht|Ht]; [|now apply step_other].
   destruct o as [k' kd|k'|k' w sv f|k'|k'|k'|cr|exc| |]; cbn [op_target] in Ht; try discriminate;
     injection Ht as ->; cbn [step].
-  1-4: destruct Hp as [-> | ->]; reflexivity.
-  - unfold handed_out. destruct Hp as [-> | ->]; reflexivity.
-  - destruct (CI_early _ (I_call s I k)) as (_ & _ & _ & E & _); [destruct Hp as [-> | ->]; reflexivity|].
-    rewrite E. reflexivity.
+  1-4: destruct Hp as [-> | [-> | ->]]; reflexivity.
+  - unfold handed_out. destruct Hp as [-> | [-> | ->]]; reflexivity.
+  - rewrite Hi. reflexivity.
 Qed.
+
 
 (* a call that passed _check_running before stop() but whose start_soon runs only after the portal's group
    became inactive is refused at the landing: RuntimeError travels back through run_sync's future, the call
    never enters the group and never runs.  While the group is still active (stop() alone does not deactivate
    it) the landing is accepted. *)
-Theorem portal_land_refused_after_exit s k : host s = HLeft -> c_phase (calls s k) = PIssued ->
+Theorem portal_land_refused_after_exit s k : host s = HLeft -> loop_ended s = false -> c_phase (calls s k) = PIssued ->
   let s' := fst (step s (ThreadLand k)) in
   snd (step s (ThreadLand k)) = RLandRefused /\ c_phase (calls s' k) = PLandRefused /\ members s' = members s /\
   c_execs (calls s' k) = c_execs (calls s k) /\ c_fut (calls s' k) = c_fut (calls s k).
-Proof. intros Hh Hp. cbn [step]. rewrite Hp, Hh. cbn. rewrite upd_same. cbn. auto. Qed.
+Proof. intros Hh He Hp. cbn [step]. rewrite Hp, Hh, He. cbn. rewrite upd_same. cbn. auto. Qed.
 
 Theorem portal_land_accepted_while_active s k : host s <> HLeft -> c_phase (calls s k) = PIssued ->
   let s' := fst (step s (ThreadLand k)) in
@@ -1309,4 +1311,155 @@ Example ex_own_cancellation_local :
   c_fut (calls s2 0) = CCancelled /\ c_fut (calls s2 1) = CResult 7%Z /\ group_cancelled s2 = false /\
   running s2 = true /\ c_phase (calls s2 2) = PIssued /\ c_scope_cancelled (calls s2 1) = false /\
   snd (step s2 (TaskStep 1 WInterrupt None FReraise)) = RRejected.
+Proof. vm_compute. repeat split. Qed.
+
+(* ====================================================================================================
+   F39: a cancelled portal future is reported to the waiters (concurrent.futures.wait / as_completed)
+   ==================================================================================================== *)
+(* With repair 56e7f66 (`fn_fixed`): in every reachable state, once the task of a call has ended -- a fortiori once
+   it has been reaped -- a cancelled future is in the state CANCELLED_AND_NOTIFIED, whoever cancelled it: the
+   caller (before or after the first step of the wrapper; sync or awaitable callable) or the portal. *)
+Theorem portal_cancelled_future_notified f4 fc s k : reach f4 fc s -> fn_fixed s = true ->
+  donep (c_phase (calls s k)) = true -> c_fut (calls s k) = CCancelled ->
+  c_notified (calls s k) = true /\ fut_state (calls s k) = SCancelledNotified /\ reported_done (calls s k) = true.
+Proof.
+  intros R Hf Hd Hc. pose proof (reach_inv _ _ _ R) as I. pose proof (I_ntf s I Hf k Hd Hc) as Hn.
+  unfold reported_done, fut_state. rewrite Hc, Hn. auto.
+Qed.
+
+(* every finished call is reported as done: "no caller waits for ever on wait()/as_completed()" *)
+Theorem portal_done_future_reported f4 fc s k : reach f4 fc s -> fn_fixed s = true ->
+  donep (c_phase (calls s k)) = true -> reported_done (calls s k) = true.
+Proof.
+  intros R Hf Hd. pose proof (reach_inv _ _ _ R) as I.
+  destruct (CI_closed _ (I_call s I k) Hd) as (o & _ & Hok).
+  destruct (c_fut (calls s k)) eqn:Ec.
+  - destruct o; cbn in Hok; intuition congruence.
+  - unfold reported_done, fut_state. rewrite Ec. reflexivity.
+  - unfold reported_done, fut_state. rewrite Ec. reflexivity.
+  - apply (portal_cancelled_future_notified f4 fc s k R Hf Hd Ec).
+Qed.
+
+(* the notification is made at most once, only on a cancelled future of a finished task, and the future never
+   enters the RUNNING state *)
+Theorem portal_notification_sound f4 fc s k : reach f4 fc s ->
+  (c_notified (calls s k) = true -> c_fut (calls s k) = CCancelled /\ donep (c_phase (calls s k)) = true) /\
+  c_invalid (calls s k) = false /\ fut_state (calls s k) <> SRunning.
+Proof.
+  intros R. pose proof (reach_inv _ _ _ R) as I. refine (conj (CI_notified _ (I_call s I k)) (conj (CI_valid _ (I_call s I k)) _)).
+  unfold fut_state. destruct (c_fut (calls s k)); try discriminate. destruct (c_notified _); discriminate.
+Qed.
+
+(* pinned variant (tree before 56e7f66, finding F39): a future cancelled BY THE CALLER is never notified -- the
+   cancellation is absorbed by the call's own scope (coroutine), or simply found by `if not future.cancelled()`
+   (sync callable cancelled before it ran): the task is reaped, the future stays CANCELLED, wait() never reports it *)
+Definition fn_pinned_witness_coro : list op :=
+  [ThreadIssue 0 KCoro; ThreadLand 0; TaskStep 0 WNormal None FBlock; FutureCancel 0; CancelLand 0;
+   TaskStep 0 WInterrupt None FReraise; TaskReap 0].
+Definition fn_pinned_witness_sync : list op :=
+  [ThreadIssue 0 KSync; ThreadLand 0; FutureCancel 0; TaskStep 0 WNormal None (FReturn 9%Z); TaskReap 0].
+
+Theorem portal_cancelled_future_notified_refuted_pinned :
+  (let s := final step (init true true false) fn_pinned_witness_coro in
+   c_phase (calls s 0) = PReaped /\ c_fut (calls s 0) = CCancelled /\ c_fcancel (calls s 0) = true /\
+   c_notified (calls s 0) = false /\ reported_done (calls s 0) = false) /\
+  (let s := final step (init true true false) fn_pinned_witness_sync in
+   c_phase (calls s 0) = PReaped /\ c_fut (calls s 0) = CCancelled /\ c_execs (calls s 0) = 1 /\
+   c_notified (calls s 0) = false /\ reported_done (calls s 0) = false).
+Proof. vm_compute. repeat split. Qed.
+
+(* the same histories on the repaired tree, and a cancellation by the portal (both variants notify that one) *)
+Example ex_fn_history_fixed :
+  (let s := final step (init true true true) fn_pinned_witness_coro in
+   donep (c_phase (calls s 0)) = true /\ c_fut (calls s 0) = CCancelled /\ fut_state (calls s 0) = SCancelledNotified) /\
+  (let s := final step (init true true true) fn_pinned_witness_sync in
+   donep (c_phase (calls s 0)) = true /\ c_fut (calls s 0) = CCancelled /\ fut_state (calls s 0) = SCancelledNotified) /\
+  (let s := final step (init true true false)
+              [ThreadIssue 0 KCoro; ThreadLand 0; TaskStep 0 WNormal None FBlock; Stop true;
+               TaskStep 0 WInterrupt None FReraise; TaskReap 0] in
+   fut_state (calls s 0) = SCancelledNotified) /\
+  (* cancelled by the caller before the first step of a coroutine call *)
+  (let s := final step (init true true true)
+              [ThreadIssue 0 KCoro; ThreadLand 0; FutureCancel 0; TaskStep 0 WNormal None FBlock;
+               TaskStep 0 WInterrupt None FReraise; TaskReap 0] in
+   c_phase (calls s 0) = PReaped /\ fut_state (calls s 0) = SCancelledNotified).
+Proof. vm_compute. repeat split. Qed.
+
+(* ====================================================================================================
+   F40: a hand-over that comes after the loop's last iteration
+   ==================================================================================================== *)
+(* the strong clause: every issued call is run, refused, or (once the context has been left) answered -- and no
+   Future.cancel() is stuck.  PLost is the only phase from which no op leads anywhere (portal_refusal_is_final). *)
+Definition no_call_left_hanging (ops : list op) : Prop :=
+  let s := final step (init true true true) ops in
+  lost_cancels s = [] /\
+  forall k,
+    match c_phase (calls s k) with
+    | PLost => False
+    | PLanded | PRunning | PFinished | PReaped =>
+        host s = HLeft ->
+        c_phase (calls s k) = PReaped /\ c_execs (calls s k) = 1 /\ c_fut (calls s k) <> CPending /\
+        reported_done (calls s k) = true
+    | _ => True
+    end.
+
+Theorem portal_no_call_left_hanging ops : no_land_after_loop_end ops = true -> no_call_left_hanging ops.
+Proof.
+  unfold no_land_after_loop_end, landed_after_loop_end, lost_any, no_call_left_hanging.
+  set (s := final step (init true true true) ops). intros H.
+  assert (R : reach true true s) by apply reach_final.
+  pose proof (reach_inv _ _ _ R) as I.
+  assert (Hfn : fn_fixed s = true) by (destruct (final_flags ops (init true true true)) as (_ & _ & E); exact E).
+  apply Bool.negb_true_iff, Bool.negb_false_iff, andb_prop in H. destruct H as [H1 H2].
+  apply is_nil_true in H1. apply is_nil_true in H2. split; [exact H2|].
+  intros k. destruct (c_phase (calls s k)) eqn:Ep; auto.
+  1-4: intros Hh; destruct (portal_exit_joins true s R Hh) as [_ Hall];
+       destruct (Hall k) as (E1 & E2 & E3 & _); [rewrite Ep; reflexivity|];
+       rewrite Ep in E1; try discriminate E1; refine (conj eq_refl (conj E2 (conj E3 _)));
+       apply (portal_done_future_reported true true s k R Hfn); rewrite Ep; reflexivity.
+  pose proof (I_lost s I k Ep) as Hin. rewrite H1 in Hin. exact Hin.
+Qed.
+
+(* the hypothesis cannot be dropped (finding F40): a call that passed _check_running is handed over after the
+   loop's last iteration -- it is never run, never refused, its future stays pending, and nothing can ever change that *)
+Definition f40_witness : list op :=
+  [ThreadIssue 0 KCoro; HostExit false; ResumeHost; LoopEnd; ThreadLand 0].
+
+Theorem portal_landed_after_loop_end_refuted :
+  exists ops, landed_after_loop_end ops = true /\ ~ no_call_left_hanging ops /\
+    let s := final step (init true true true) ops in
+    c_phase (calls s 0) = PLost /\ c_execs (calls s 0) = 0 /\ c_fut (calls s 0) = CPending /\
+    forall ops', calls (final step s ops') 0 = calls s 0.
+Proof.
+  exists f40_witness. split; [vm_compute; reflexivity|]. split.
+  - intros [_ H]. specialize (H 0). vm_compute in H. exact H.
+  - cbv zeta. set (s := final step (init true true true) f40_witness).
+    assert (Hp : c_phase (calls s 0) = PLost) by (vm_compute; reflexivity).
+    assert (He : c_execs (calls s 0) = 0) by (vm_compute; reflexivity).
+    assert (Hu : c_fut (calls s 0) = CPending) by (vm_compute; reflexivity).
+    refine (conj Hp (conj He (conj Hu _))).
+    assert (G : forall ops' s0, reach true true s0 -> c_phase (calls s0 0) = PLost ->
+                calls (final step s0 ops') 0 = calls s0 0).
+    { induction ops' as [|o r IH]; intros s0 R0 H0; [reflexivity|].
+      change (final step s0 (o :: r)) with (final step (fst (step s0 o)) r).
+      destruct (portal_refusal_is_final true true s0 o 0 R0) as (E & _); [auto|].
+      rewrite IH; [exact E|apply reach_step, R0|rewrite E; exact H0]. }
+    intros ops'. apply G; [apply reach_final|exact Hp].
+Qed.
+
+(* the second entry point of F40: the scope.cancel marshalled by a Future.cancel() is handed over after the loop's
+   last iteration *)
+Example ex_cancel_landed_after_loop_end :
+  let ops := [ThreadIssue 0 KCoro; ThreadLand 0; TaskStep 0 WNormal None FBlock; FutureCancel 0;
+              TaskStep 0 WNormal None (FReturn 3%Z); TaskReap 0; HostExit false; ResumeHost; LoopEnd; CancelLand 0] in
+  landed_after_loop_end ops = true /\ lost_cancels (final step (init true true true) ops) = [0] /\
+  host (final step (init true true true) ops) = HLeft.
+Proof. vm_compute. repeat split. Qed.
+
+(* non-vacuity of the hypothesis: a history in which the loop ends, with calls before and after, and no late hand-over *)
+Example ex_no_land_after_loop_end_hyp :
+  let ops := ex_ops1 ++ [LoopEnd; ThreadIssue 2 KSync] in
+  no_land_after_loop_end ops = true /\ loop_ended (final step (init true true true) ops) = true /\
+  c_phase (calls (final step (init true true true) ops) 2) = PRefused /\
+  c_phase (calls (final step (init true true true) ops) 0) = PReaped.
 Proof. vm_compute. repeat split. Qed.
